@@ -144,8 +144,10 @@ def has_attr(ip, st, v, name):
 def is_callable(ip, st, v):
     if isinstance(v, Fun):
         if v.kind == "elem-method":
-            f = ip.reg.ufun("callable_%s" % v.name, ["Obj"], "Bool")
-            return T("(%s %s)" % (f, v.elem.t.s), "Bool")
+            # "the element has this attribute and it is callable" (abstract predicate over element and attribute name)
+            ip.reg.need_val()
+            f = ip.reg.ufun("callable_attr", ["Obj", "Key"], "Bool")
+            return T("(%s %s %s)" % (f, v.elem.t.s, method_key(ip, v).s), "Bool")
         return TRUE
     if isinstance(v, Opaque) and v.sort in ("Obj", "V"):
         f = ip.reg.ufun("is_callable_" + v.sort, [v.sort], "Bool")
@@ -153,6 +155,13 @@ def is_callable(ip, st, v):
     if isinstance(v, Ref) and isinstance(st.heap[v.cid], ObjCell):
         return TRUE if ip.contracts.find_method(st.heap[v.cid].cls, "__call__") is not None else FALSE
     return FALSE
+
+
+def method_key(ip, f):
+    k = getattr(f, "key", None)
+    if k is not None:
+        return k
+    return ip.reg.key(f.name)
 
 
 def call_builtin(ip, st, name, pos, kws, node):
@@ -223,6 +232,9 @@ def call_builtin(ip, st, name, pos, kws, node):
     if name == "callable":
         return [(st, Bool(is_callable(ip, st, pos[0])))]
     if name == "getattr":
+        if isinstance(pos[1], Opaque) and pos[1].sort == "Key" and isinstance(pos[0], Opaque) and pos[0].sort == "Obj":
+            # attribute name given by the caller (a method name parameter of an adapter)
+            return [(st, Fun("elem-method", elem=pos[0], name=None, key=pos[1].t, optional=len(pos) > 2))]
         if not isinstance(pos[1], Str):
             raise U("getattr with a computed name")
         v, attr = pos[0], pos[1].s
